@@ -167,6 +167,14 @@ def legacy_layout(rng, repo, kind=None):
         expect[dimg2] = {b3[1]}
         L.add_fallback(dimg, rds)
         L.add_fallback(dimg2, [b3[2]])
+    if rng.random() < 0.35:
+        # an ordinary tag on a fallback index (a backup / alias a tool put there): it has to survive whatever happens to the
+        # fallback tag itself
+        fbs = [e for e in L.entries if re.match(r"^sha(256|512)-", e.get("annotations", {}).get(REFNAME, ""))]
+        if fbs:
+            e0 = rng.choice(fbs)
+            alias = {"mediaType": e0["mediaType"], "digest": e0["digest"], "size": e0["size"], "annotations": {REFNAME: "refs-backup"}}
+            L.entries.insert(rng.randrange(len(L.entries) + 1), alias)
     tags = {e["annotations"][REFNAME]: e["digest"] for e in L.entries if e.get("annotations", {}).get(REFNAME) and not re.match(r"^sha(256|512)-", e["annotations"][REFNAME])}
     return L, expect, tags
 
